@@ -252,8 +252,12 @@ def tor(*bs):
     return ('or', tuple(uniq))
 
 
+BOOL_TAGS = ('bool', 'le0', 'eq0', 'not', 'and', 'or', 'is_err', 'is_ok', 'is_some', 'is_none', 'matches', 'ptreq',
+             'eq', 'any', 'all')
+
+
 def is_bool(t):
-    return isinstance(t, tuple) and t and t[0] in ('bool', 'le0', 'eq0', 'not', 'and', 'or')
+    return isinstance(t, tuple) and bool(t) and t[0] in BOOL_TAGS
 
 
 def ind(b):
